@@ -286,7 +286,7 @@ def _single_displays(fdef):
             count[x.id] = count.get(x.id, 0) + 1
     for st in fdef.body:
         if isinstance(st, ast.Assign) and len(st.targets) == 1 and isinstance(st.targets[0], ast.Name) and isinstance(st.value, (ast.List, ast.Tuple)) \
-                and all(_side_effect_free(e) for e in st.value.elts):
+                and all(_side_effect_free(e) or (isinstance(e, (ast.Tuple, ast.List)) and all(_side_effect_free(x) or _is_const(x) for x in e.elts)) for e in st.value.elts):
             disp[st.targets[0].id] = st.value
     return {k: v for k, v in disp.items() if count.get(k) == 1}
 
@@ -2349,4 +2349,6 @@ class Normalizer:
             out.append(asg)
             out += copy.deepcopy(st.body)
         self.unrolled.append((state["caller"], getattr(st, "lineno", 0), len(disp.elts)))
+        # setattr / getattr whose name became a constant by the substitution are attribute stores / loads now (N3)
+        out = [_AttrCalls().visit(s_) for s_ in out]
         return out
